@@ -12,3 +12,7 @@ chk("C20", "runtime monitoring: file-system fingerprint monitor (inode/mode/size
     "Directory trees (enumerated to a bound, PRNG beyond, incl. look-alike names, symlinks, '.', missing target) are built on disk, the real CleanTargetDir (both generations) and the real generator (child processes) run on them, and every non-owned entry must keep its fingerprint, every owned file must vanish, emptied directories must go, a second clean must change nothing, and regeneration must reproduce the same generated files; a sample runs under strace and every successful mutating syscall must target an owned path.",
     "Trusts: the set-based ownership model (suffix .gr.go or manifest name, any depth); fingerprints detect touching except a restore of all of content+mtime+ctime (strace sample covers that).",
     "DESIGN.md 3 C20")
+chk("C15", "runtime monitoring: reference-model monitor (independent URL builder) over library-built requests, plus a wire tap on the request target actually sent",
+    "Requests built by NewGetRequest / NewJsonRequest (both generations) for every base URL of the context-path grammar x percent-encoded hostile resource paths x queries are compared byte for byte (scheme, host, EscapedPath, RawQuery) with an independent reference builder; a sample is sent over loopback and the request target received is compared too. Held on the bases/paths/queries enumerated.",
+    "Trusts: the reference rule 'drop trailing slash, drop a final context segment equal to the root'; contexts with the root name as a complete non-final segment are observed only (unspecified by the property).",
+    "DESIGN.md 3 C15")
